@@ -29,6 +29,7 @@ Definition spec_where (w : where_) (s : sstate) : sstate * list string * outcome
   | WClassDef | WClassDefNested => (s, [], OErr KRuntime superclass_msg)
   | WCapture => (s_def GLeak (VClosure false 41) s, [], OErr KRuntime (exc_msg 1))   (* c = || x completed *)
   | WBuiltin => (s, ["nf"], OErr KAttr attr_msg)
+  | WCaptureFiber => (s_def GLeak (VClosure false 41) s, [], OErr KRuntime (exc_msg 1))
   end.
 
 (* loading a module that is not imported yet: what it prints, whether it completes, the loader calls *)
@@ -106,8 +107,8 @@ Definition eval_spec (h : history) : list obs := s_history s_init h.
 
 (* ---------- the named classes of histories on which the code departs from the Spec ---------- *)
 (* failed_import_poisons_module: an import whose closure contains a module whose body failed earlier (no RESET in
-   between).  open_upvalue_after_failed_run: print(c()) where c was created by a run that then failed (WCapture),
-   not re-created since. *)
+   between).  open_upvalue_after_failed_run: print(c()) where c captured a local of a frame whose fiber CALLED the fiber that
+   failed (WCaptureFiber), not re-created since. *)
 Inductive known_class := KFailedImport | KOpenUpvalue.
 
 Record kstate := mkK { k_poisoned : modk -> bool; k_leak : bool }.
@@ -121,7 +122,8 @@ Definition scan_snippet (k : kstate) (sn : snip) : kstate * option known_class :
   | SnImport MNest =>
       if k_poisoned k MNest || k_poisoned k MThrow then (k_poison MNest k, Some KFailedImport)
       else (k_poison MNest (k_poison MThrow k), None)
-  | SnThrow WCapture _ => (mkK (k_poisoned k) true, None)
+  | SnThrow WCaptureFiber _ => (mkK (k_poisoned k) true, None)
+  | SnThrow WCapture _ => (mkK (k_poisoned k) false, None)
   | SnCaptureOk => (mkK (k_poisoned k) false, None)
   | SnUseLeak => (k, if k_leak k then Some KOpenUpvalue else None)
   | SnReset => (k_init, None)
